@@ -13,6 +13,9 @@ func main() {
 		if a == "-racepass" {
 			os.Exit(checks.RacePass())
 		}
+		if a == "-racepass-env" {
+			os.Exit(checks.EnvRacePass())
+		}
 	}
 	mc.Main(checks.All())
 }
